@@ -9,10 +9,10 @@ From TT Require Import Lib.Base Lib.Sort Model.Matchers.
 
 (* ---------- small decidable notions used by the statement ---------- *)
 Definition scalar (v : val) : bool :=
-  match v with VInt _ | VStr _ | VBytes _ | VNone => true | _ => false end.
+  match v with VInt _ | VBool _ | VFloat _ | VStr _ | VBytes _ | VNone => true | _ => false end.
 Fixpoint plain (v : val) : bool :=
   match v with
-  | VInt _ | VStr _ | VBytes _ | VNone => true
+  | VInt _ | VBool _ | VFloat _ | VStr _ | VBytes _ | VNone => true
   | VList l => forallb plain l
   | VDict kvs => forallb (fun kv => plain (snd kv)) kvs
   | VRec _ attrs => forallb (fun kv => plain (snd kv)) attrs
@@ -63,8 +63,8 @@ End ZipL.
 
 Definition same_kind (a b : val) : bool :=
   match a, b with
-  | VInt _, VInt _ | VStr _, VStr _ | VBytes _, VBytes _ => true
-  | _, _ => false
+  | VStr _, VStr _ | VBytes _, VBytes _ => true
+  | _, _ => negb (is_none (num2 a)) && negb (is_none (num2 b))     (* int, bool, float order among themselves *)
   end.
 Definition kind_of_key (k : key) : bool := match k with KInt _ => true | KStr _ => false end.
 Definition one_kind (ks : list key) : bool :=
